@@ -45,6 +45,21 @@ def instances(tier, seed):
                             out.append(dict(kinds=kinds, bonds=bonds, qn=qn, qnidx=idx, method=method, to_right=to_right, variant=variant,
                                             label="heff %s %s idx=%d right=%s %s qn=%s" % ("".join(kinds), method, idx, to_right, variant,
                                                                                         str([[r[0] for r in q] for q in qn]).replace(" ", "")), key="heff/%s/%s" % (method, variant)))
+    # the real optimize_mps driver (one sweep) with the eigensolver replaced by a contract stub: environment handling, the omega shift
+    # and the mask at EVERY local step of the real sweep
+    sw = [(("e", "e"), (1, 2, 1)), (("e", "e", "e"), (1, 2, 2, 1))]
+    if tier == "thorough":
+        sw += [(("e", "w", "e"), (1, 2, 2, 1)), (("e", "e", "e", "e"), (1, 2, 2, 2, 1))]
+    for kinds, bonds in sw:
+        n = len(kinds)
+        for method in ("1site", "2site"):
+            for start in ("left", "right"):
+                for om in (False, True):
+                    if om and n > 3:
+                        continue
+                    qn = [[[0]]] + [[[0], [1]] for _ in range(n - 1)] + [[[0]]]      # every bond carries the labels 0 and 1: both blocks are populated everywhere
+                    out.append(dict(op="sweep", kinds=kinds, bonds=bonds, qn=qn, qnidx=(n - 1 if start == "right" else 0), method=method, omega=om, obond=(1 if (om and n > 2) else 2),
+                                    run_opts=dict(budget_s=120.0), label="optimize_mps sweep %s %s centre starts %s omega=%s" % ("".join(kinds), method, start, om), key="sweep/%s/%s" % (method, "omega" if om else "plain")))
     return out
 
 
@@ -56,7 +71,89 @@ def sym_mpo(ctx, name, model, n, bond=2):
     return lib.build_mpo(ctx, name, model, bonds, [np.array(q) for q in qn], [0], n - 1, kind="real")
 
 
+class _StopSweep(Exception):
+    pass
+
+
+def h_sweep(ctx, P):
+    from renormalizer.mps import Mps, Mpo, gs
+    from renormalizer.mps.lib import cvec2cmat
+    from renormalizer.utils import OptimizeConfig, CompressConfig, CompressCriteria
+    from symnum import stubs
+    model = lib.make_model(P["kinds"])
+    n = model.nsite
+    mps = lib.build_mps(ctx, "a", model, P["bonds"], [np.array(q) for q in P["qn"]], [1], P["qnidx"], to_right=(P["qnidx"] == 0), kind="real", coeff="one")
+    mps.optimize_config = OptimizeConfig(procedure=[[8, 0]])
+    mps.optimize_config.method = P["method"]
+    mps.compress_config = CompressConfig(CompressCriteria.fixed, max_bonddim=8)
+    mpo = sym_mpo(ctx, "o", model, n, bond=P.get("obond", 2))
+    H = lib.dense_op(lib.tensors(mpo))
+    omega = None
+    Href = H
+    if P["omega"]:
+        omega = ctx.real("omega", 0.7)
+        Hs = H - np.eye(H.shape[0], dtype=int) * omega
+        Href = Hs.dot(Hs)
+    conds = []
+    steps = []
+    cnt = [0]
+
+    def fake_eigh(mps_, qn_mask, ltensor, rtensor, cmo, omega_):
+        mask = np.asarray(qn_mask)
+        K = int(mask.sum())
+        ham = np.asarray(gs.get_ham_direct(mps_, qn_mask, ltensor, rtensor, cmo, omega_))
+        if len(cmo) == 1:
+            cidx = [mps_.qnidx]
+        else:
+            cidx = [mps_.qnidx, mps_.qnidx + 1] if mps_.to_right else [mps_.qnidx - 1, mps_.qnidx]
+        steps.append(tuple(cidx))
+        ts = lib.tensors(mps_)
+        left, right = ts[:cidx[0]], ts[cidx[-1] + 1:]
+        vecs = []
+        for k_ in range(K):
+            e = np.zeros(K)
+            e[k_] = 1
+            vecs.append(_contract(left + [np.asarray(cvec2cmat(e, mask))] + right))
+        Hv = [Href.dot(v) for v in vecs]
+        ref = np.empty((K, K), dtype=object if ctx.symbolic else float)
+        for i in range(K):
+            for j in range(K):
+                ref[i, j] = sum((a * b for a, b in zip(vecs[i], Hv[j])), 0)
+        conds.append(ctx.eq(ham, ref))
+        cnt[0] += 1
+        return ctx.real("e%d" % cnt[0], -0.3), ctx.array("c%d_" % cnt[0], (K,), "real")
+
+    real_sweep = gs.single_sweep
+
+    def one_sweep(*a, **k):
+        real_sweep(*a, **k)
+        raise _StopSweep()
+    saved = (gs.eigh_direct, gs.single_sweep)
+    gs.eigh_direct, gs.single_sweep = fake_eigh, one_sweep
+    undo = None
+    if ctx.symbolic:
+        _, undo = stubs.lapack_contract(ctx, modules=("renormalizer.mps.svd_qn",))
+    try:
+        try:
+            gs.optimize_mps(mps, mpo, omega=omega)
+        except _StopSweep:
+            pass
+    finally:
+        gs.eigh_direct, gs.single_sweep = saved
+        if undo:
+            undo()
+    what = "(H - omega)^2" if P["omega"] else "H"
+    ctx.check("optimize_mps: at every local step of the real sweep the matrix handed to the eigensolver = projection of %s onto the current centre coefficients" % what, ctx.all(conds))
+    # sweep coverage: every site (pair) is optimised exactly once, in order, starting from the end the preparation leaves the centre at
+    seq = [c[0] for c in steps]
+    nsteps = n if P["method"] == "1site" else n - 1
+    ctx.check("optimize_mps: one sweep optimises every site (pair) exactly once in sweep order", len(steps) == nsteps and (seq == sorted(seq) or seq == sorted(seq, reverse=True)) and len(set(steps)) == nsteps)
+
+
 def make_harness(P):
+    if P.get("op") == "sweep":
+        return lambda ctx: h_sweep(ctx, P)
+
     def h(ctx):
         from renormalizer.mps import Mps, Mpo
         from renormalizer.mps.mpo import StackedMpo
@@ -179,7 +276,9 @@ def main(tier, seed):
     from renormalizer.mps import gs, hop_expr as he, lib as mlib
     return common.run_check(
         PROP, "checks.c08", tier, seed,
-        explanation="get_ham_direct, get_ham_iterative (diagonal + hop_expr operator), the (H-omega)^2 two-layer form, StackedMpo summation and the incremental environment update "
+        explanation="get_ham_direct, get_ham_iterative (diagonal + hop_expr operator), the (H-omega)^2 two-layer form, StackedMpo summation the incremental environment update, and the REAL optimize_mps driver "
+                    "for one sweep with the eigensolver replaced by a contract stub (arbitrary energy and coefficients; symbolic omega: matrix at every local step = projection of H resp. "
+                    "(H - omega)^2 on the current state, every site (pair) optimised once in order) "
                     "on chains of 2-3 (thorough 4) sites with fully symbolic state and operator tensors (bond 2), every centre position, one- and two-site, both directions, "
                     "restricted to the quantum-number mask: every matrix element equals <e_i|H|e_j> computed from the dense operator and the dense tangent vectors.",
         assumptions=["NOT covered (DESIGN.md section 2): 'the reported energy is an upper bound', agreement with exact diagonalisation at full bond dimension, Davidson/ARPACK/primme "
@@ -187,7 +286,7 @@ def main(tier, seed):
                      "isometry of the non-centre sites (C04); that inference is recorded, not machine-checked",
                      "real-valued tensors; tree counterparts are under C12/C11", "normalisation and sector of the returned state: C04/C06 step lemmas (_update_mps in C06)"],
         trusted_base=["z3 5.1", "NumPy object loops", "opt_einsum path execution on object arrays"],
-        functions=[gs.get_ham_direct, gs.get_ham_iterative, he.hop_expr, mlib.Environ.GetLR, mlib.Environ._construct, mlib.contract_one_site, mlib.contract_one_site_multi_mpo, mlib.cvec2cmat])
+        functions=[gs.optimize_mps, gs.single_sweep, gs.get_ham_direct, gs.get_ham_iterative, he.hop_expr, mlib.Environ.GetLR, mlib.Environ._construct, mlib.contract_one_site, mlib.contract_one_site_multi_mpo, mlib.cvec2cmat])
 
 
 if __name__ == "__main__":
